@@ -242,6 +242,16 @@ func Seeds() []func() *Program {
 			a.Add(obj("Foo", fld("home", RefTo(addr, "")), fld("previous", RefTo(st, "")), fld("far", RefTo(target, "other"))))
 			return &Program{Files: []*File{a, b, o}}
 		},
+		one(func(f *File) { // requests, responses and topic messages that refer to types of the package by name
+			addr := obj("Address", fld("line", T(TString)))
+			st := enumD("Status", "ON", "OFF")
+			f.Add(addr)
+			f.Add(st)
+			f.Add(&Service{Name: "Customer", BasePath: "/t/v1", Methods: []*Method{
+				{Name: "GetCustomer", Verb: "POST", Path: "/customer", Request: []*Field{fld("shippingAddress", RefTo(addr, "")), fld("wanted", RefTo(st, ""))}, HasResponse: true, Response: []*Field{fld("billingAddress", RefTo(addr, "")), fld("state", RefTo(st, "")), fld("all", ArrayOf(RefTo(addr, "")))}},
+			}})
+			f.Add(&Topic{Name: "Moves", Kind: "publish", Messages: []*TopicMsg{{Name: "Moved", Fields: []*Field{fld("to", RefTo(addr, "")), fld("state", RefTo(st, ""))}}}})
+		}),
 		func() *Program { // the same simple type name in the local and in an imported package; only the imported one is referenced, by the last declaration
 			a := file("t/v1", "a")
 			o := file("other/v1", "z")
